@@ -843,6 +843,9 @@ func main() {
 					continue
 				}
 				h := newHist(f[0], fmt.Sprintf("corpus:%d", i), v3cancel)
+				if t3, ok := h.a.(*tx3A); ok {
+					t3.predict = true
+				}
 				for _, tok := range strings.Fields(f[1]) {
 					h.exec(tok)
 				}
